@@ -193,6 +193,22 @@ example : typeInstr false (.seq [.SHA512, .SHA3, .CAST .bytes, .TOTAL_VOTING_POW
     = some (.ok [.nat, .nat, .bytes]) := by rfl
 example : typeInstr false (.CAST .int) [.nat] = none := by rfl
 
+-- extension 2, phase A: conversions, NEVER (typed like FAILWITH: only in tail position), VOTING_POWER, HASH_KEY
+example : typeInstr false (.seq [.BYTES, .DUP, .NAT, .SWAP, .INT, .BYTES]) [.int] = some (.ok [.bytes, .nat]) := by rfl
+example : typeInstr false (.seq [.HASH_KEY, .VOTING_POWER]) [.key] = some (.ok [.nat]) := by rfl
+example : typeInstr false .NEVER [.never, .int] = some .failed := by rfl
+example : typeInstr false (.seq [.NEVER, .UNIT]) [.never] = none := by rfl
+example : typeInstr false .BYTES [.mutez] = none := by rfl
+-- phase C: contracts and operations
+example : typeInstr false (.seq [.SELF [97] .nat, .DUP, .ADDRESS, .CONTRACT .string [98], .SWAP, .PUSH .mutez (.num .mutez 1),
+      .PUSH .nat (.num .nat 2), .TRANSFER_TOKENS]) [] = some (.ok [.operation, .option (.contract .string)]) := by rfl
+example : typeInstr false (.seq [.IMPLICIT_ACCOUNT, .PUSH .mutez (.num .mutez 1), .PUSH .nat (.num .nat 2), .TRANSFER_TOKENS]) [.keyHash]
+    = none := by rfl      -- the parameter has to be `unit`
+example : typeInstr false (.seq [.SET_DELEGATE, .SWAP, .EMIT [] .int, .NIL .operation, .SWAP, .CONS, .SWAP, .CONS]) [.option .keyHash, .int]
+    = some (.ok [.list .operation]) := by rfl
+example : StackTy [.opTransfer [75] [76] [97] 5 (.num .nat 7) .nat, .contract .unit [116]] [.operation, .contract .unit] :=
+  .cons (by rfl) (.cons (by rfl) .nil)
+
 -- non-vacuity of `type_soundness` / `welltyped_run_preserves_types`: the hypotheses hold for MAP { CDR } over the map above
 example : ∀ v ∈ [mPair], litOk v = true := by simp [mPair, litOk, litOks, simpleComparable]
 example : literalsOk (.MAP .CDR) = true := by rfl
